@@ -1,10 +1,17 @@
 use crate::Headers;
+use std::cell::Cell;
 use std::cmp::min;
 use std::io::{self, BufRead, BufReader, ErrorKind, Read, Take};
 
 const BUF_SIZE: usize = 4096;
 
-pub struct BodyReader<'a, R: Read>(BodyEncoding<'a, R>);
+pub struct BodyReader<'a, R: Read> {
+    encoding: BodyEncoding<'a, R>,
+    /// a read has failed: the position in the stream is unknown from here on
+    failed: bool,
+    /// set when the reader is dropped and the rest of the body could not be discarded
+    lost: Option<&'a Cell<bool>>,
+}
 
 enum BodyEncoding<'a, R> {
     Fixed(FixedReader<'a, R>),
@@ -46,21 +53,43 @@ impl<'a, R: Read> BodyReader<'a, R> {
 
     #[inline]
     pub fn new_fixed(leftover: &'a [u8], stream: R, content_length: usize) -> Self {
-        Self(BodyEncoding::Fixed(FixedReader::new(
+        Self::with(BodyEncoding::Fixed(FixedReader::new(
             leftover,
             stream,
             content_length,
         )))
     }
 
+    /// As `from_request`, for the server's request loop: `lost` is set when the reader is dropped and the rest of
+    /// the body could not be discarded (the next request cannot be located then).
+    pub(crate) fn from_request_reporting(
+        leftover: &'a [u8],
+        stream: R,
+        headers: &Headers,
+        lost: &'a Cell<bool>,
+    ) -> Self {
+        let mut reader = Self::from_request(leftover, stream, headers);
+        reader.lost = Some(lost);
+        reader
+    }
+
+    #[inline]
+    fn with(encoding: BodyEncoding<'a, R>) -> Self {
+        Self {
+            encoding,
+            failed: false,
+            lost: None,
+        }
+    }
+
     #[inline]
     pub fn new_chunked(leftover: &'a [u8], stream: R) -> Self {
-        Self(BodyEncoding::Chunked(ChunkedReader::new(leftover, stream)))
+        Self::with(BodyEncoding::Chunked(ChunkedReader::new(leftover, stream)))
     }
 
     #[inline]
     pub fn new_eof(leftover: &'a [u8], stream: R) -> Self {
-        Self(BodyEncoding::Eof(BufReader::with_capacity(
+        Self::with(BodyEncoding::Eof(BufReader::with_capacity(
             BUF_SIZE,
             StreamWithLeftover::new(leftover, stream),
         )))
@@ -68,7 +97,7 @@ impl<'a, R: Read> BodyReader<'a, R> {
 
     #[inline]
     pub fn new_empty(stream: R) -> Self {
-        Self(BodyEncoding::Empty(stream))
+        Self::with(BodyEncoding::Empty(stream))
     }
 
     pub fn string(&mut self) -> io::Result<String> {
@@ -82,7 +111,7 @@ impl<'a, R: Read> BodyReader<'a, R> {
     }
 
     pub(crate) fn inner(&self) -> &R {
-        match &self.0 {
+        match &self.encoding {
             BodyEncoding::Fixed(FixedReader { inner, .. }) => inner.get_ref().get_ref().inner(),
             BodyEncoding::Chunked(ChunkedReader { inner, .. }) => inner.get_ref().inner(),
             BodyEncoding::Eof(reader) => reader.get_ref().inner(),
@@ -90,51 +119,67 @@ impl<'a, R: Read> BodyReader<'a, R> {
         }
     }
 
-    fn drain(&mut self) {
+    /// Discards the rest of the body. `false`: the end of the body was not reached (the body is cut short or
+    /// malformed, or an earlier read has failed), so the position of the next message is unknown.
+    fn drain(&mut self) -> bool {
+        if self.failed {
+            return false;
+        }
         let mut buf = [0u8; 1024];
         loop {
-            match &mut self.0 {
-                BodyEncoding::Fixed(reader) => {
-                    match reader.read(&mut buf) {
-                        Ok(0) => break,
-                        Ok(_) => continue,
-                        Err(_) => break, // silently stop draining
-                    }
-                }
-                BodyEncoding::Chunked(reader) => match reader.read(&mut buf) {
-                    Ok(0) => break,
+            match &mut self.encoding {
+                BodyEncoding::Fixed(reader) => match reader.read(&mut buf) {
+                    Ok(0) => return true,
                     Ok(_) => continue,
-                    Err(_) => break,
+                    Err(_) => return false,
                 },
-                BodyEncoding::Eof(_) => return,
-                BodyEncoding::Empty(_) => return,
+                BodyEncoding::Chunked(reader) => match reader.read(&mut buf) {
+                    Ok(0) => return true,
+                    Ok(_) => continue,
+                    Err(_) => return false,
+                },
+                BodyEncoding::Eof(_) => return true,
+                BodyEncoding::Empty(_) => return true,
             }
         }
+    }
+
+    #[inline]
+    fn note<T>(&mut self, r: io::Result<T>) -> io::Result<T> {
+        if r.is_err() {
+            self.failed = true;
+        }
+        r
     }
 }
 
 impl<R: Read> Read for BodyReader<'_, R> {
     fn read(&mut self, buf: &mut [u8]) -> io::Result<usize> {
-        match &mut self.0 {
+        let r = match &mut self.encoding {
             BodyEncoding::Fixed(r) => r.read(buf),
             BodyEncoding::Chunked(c) => c.read(buf),
             BodyEncoding::Eof(r) => r.read(buf),
             BodyEncoding::Empty(_) => Ok(0),
-        }
+        };
+        self.note(r)
     }
 }
 
 impl<R: Read> BufRead for BodyReader<'_, R> {
     fn fill_buf(&mut self) -> io::Result<&[u8]> {
-        match &mut self.0 {
+        let r = match &mut self.encoding {
             BodyEncoding::Fixed(r) => r.fill_buf(),
             BodyEncoding::Chunked(c) => c.fill_buf(),
             BodyEncoding::Eof(r) => r.fill_buf(),
-            BodyEncoding::Empty(_) => Ok(&[]),
+            BodyEncoding::Empty(_) => Ok(&[][..]),
+        };
+        if r.is_err() {
+            self.failed = true;
         }
+        r
     }
     fn consume(&mut self, amt: usize) {
-        match &mut self.0 {
+        match &mut self.encoding {
             BodyEncoding::Fixed(r) => r.consume(amt),
             BodyEncoding::Chunked(c) => c.consume(amt),
             BodyEncoding::Eof(r) => r.consume(amt),
@@ -386,6 +431,10 @@ impl<R: Read> BufRead for ChunkedReader<'_, R> {
 
 impl<R: Read> Drop for BodyReader<'_, R> {
     fn drop(&mut self) {
-        self.drain();
+        if !self.drain() {
+            if let Some(lost) = self.lost {
+                lost.set(true);
+            }
+        }
     }
 }
